@@ -122,7 +122,10 @@ def check_rt(prefix, how, build, viewfn, case, flags="", model=None, refine=None
     (precondition: the oracle is only used when it agrees with the plain-data model of the history);
     refine(v0, v1, comps) -> a more specific symptom string or None"""
     tail = f"/{flags}" if flags else ""
-    x = build()
+    try:
+        x = build()
+    except Exception:  # noqa: BLE001 - a history the library refuses is outside the precondition
+        return ("skip",)
     v0 = viewfn(x)
     if model and [k for k in model if k not in v0 or not same(plain(model[k]), v0[k])]:
         return ("skip",)  # the original already disagrees with the plain-data model: another property's matter
@@ -1511,6 +1514,9 @@ def model_build(spec):
     kind, name, kw = spec
     kw = dict(kw)
     if kind == "named":
+        if "name" in kw:  # get_model's own first argument is called name
+            from cogent3.evolve import models
+            return getattr(models, name)(**kw)
         from cogent3 import get_model
         return get_model(name, **kw)
     from cogent3.evolve import substitution_model as smod
@@ -1571,7 +1577,7 @@ def model_view(sm):
 def gen_model(tier, seed):
     thorough = tier == "thorough"
     specs = [["named", n, {}] for n in NUC_MODELS + PROT_MODELS]
-    specs += [["named", n, {}] for n in (CODON_MODELS if thorough else CODON_MODELS[:3] + ["GNC"])]
+    specs += [["named", n, {}] for n in (CODON_MODELS if thorough else ["MG94HKY", "GY94"])]
     mp = {"A": 0.1, "C": 0.2, "G": 0.3, "T": 0.4}
     for n in ("HKY85", "GTR", "GN") + (("F81", "TN93") if thorough else ()):
         specs += [["named", n, {"optimise_motif_probs": True}], ["named", n, {"motif_probs": mp}],
@@ -1580,11 +1586,13 @@ def gen_model(tier, seed):
     specs += [["named", "HKY85", {"ordered_param": "kappa", "distribution": "gamma", "partitioned_params": ["kappa"]}],
               ["named", "HKY85", {"motif_length": 2}], ["named", "F81", {"motif_length": 2, "mprob_model": "monomer"}],
               ["named", "HKY85", {"motif_length": 2, "mprob_model": "conditional"}], ["named", "F81", {"motif_length": 3}],
-              ["named", "MG94HKY", {"gc": 2}], ["named", "GY94", {"optimise_motif_probs": True}],
-              ["named", "MG94GTR", {"mprob_model": "tuple"}], ["named", "JTT92", {"optimise_motif_probs": True}],
+              ["named", "MG94HKY", {"gc": 2}], ["named", "JTT92", {"optimise_motif_probs": True}],
               ["named", "WG01", {"ordered_param": "rate", "distribution": "gamma"}]]
     specs += [["custom", c, {}] for c in ("custom_kappa", "custom_named_pred", "custom_list", "custom_dinuc", "custom_codon", "custom_protein")]
     specs += [["custom", "custom_named_pred", {"optimise_motif_probs": True}], ["custom", "custom_kappa", {"motif_probs": mp}]]
+    if thorough:
+        specs += [["named", "GY94", {"optimise_motif_probs": True}], ["named", "MG94GTR", {"mprob_model": "tuple"}],
+                  ["named", "CNFHKY", {"gc": 4}], ["named", "Y98", {"motif_probs": None, "equal_motif_probs": True}]]
     for spec in specs:
         for how in CHANNELS:
             yield [spec, how]
@@ -1592,13 +1600,304 @@ def gen_model(tier, seed):
 
 def contract_model(case):
     spec, how = case
-    try:
-        x = model_build(spec)
-    except Exception:  # noqa: BLE001 - a model the library refuses to build is outside the precondition
-        return ("skip",)
-    tag = "model/" + ("custom." if spec[0] == "custom" else "") + type(x).__name__
+    fam = "custom" if spec[0] == "custom" else "nucleotide" if spec[1] in NUC_MODELS else "codon" if spec[1] in CODON_MODELS else "protein"
+    tag = "model/" + fam
     flags = ",".join(sorted(spec[2])) if spec[0] == "named" else spec[1]
     return check_rt(tag, how, lambda: model_build(spec), model_view, case, flags=flags)
+
+
+LF_BASES = {
+    # id -> (model spec, make_likelihood_function kwargs, tree, alignment kind)
+    "HKY85": (["named", "HKY85", {}], {}, LF_TREE, "dna"),
+    "GTR": (["named", "GTR", {}], {}, LF_TREE, "dna"),
+    "F81opt": (["named", "F81", {"optimise_motif_probs": True}], {}, LF_TREE, "dna"),
+    "GN": (["named", "GN", {}], {}, LF_TREE, "dna"),
+    "BH": (["named", "BH", {}], {}, LF_TREE3, "dna"),
+    "HKY85gamma": (["named", "HKY85", {"ordered_param": "rate", "distribution": "gamma"}], {"bins": 2}, LF_TREE, "dna"),
+    "HKY85loci": (["named", "HKY85", {}], {"loci": ["l1", "l2"]}, LF_TREE, "dna2"),
+    "JTT92": (["named", "JTT92", {}], {}, LF_TREE3, "protein"),
+    "dinuc": (["named", "HKY85", {"motif_length": 2}], {}, LF_TREE3, "dna"),
+    "custom": (["custom", "custom_named_pred", {}], {}, LF_TREE, "dna"),
+    "MG94HKY": (["named", "MG94HKY", {}], {}, LF_TREE3, "dna"),
+}
+
+
+def lf_build(bid, ops):
+    from cogent3 import make_aligned_seqs, make_tree
+    spec, kw, newick, akind = LF_BASES[bid]
+    sm = model_build(spec)
+    tree = make_tree(newick)
+    lf = sm.make_likelihood_function(tree, **kw)
+    names = tree.get_tip_names()
+    if akind == "protein":
+        lf.set_alignment(make_aligned_seqs(PROT_ALN, moltype="protein", info={"source": "p.fa"}).take_seqs(names))
+    else:
+        aln = make_aligned_seqs(DNA_ALN, moltype="dna", info={"source": "d.fa"}).take_seqs(names)
+        lf.set_alignment([aln[:6], aln[6:]] if akind == "dna2" else aln)
+    for op in ops:
+        k = op[0]
+        if k == "rule":
+            lf.set_param_rule(**op[1])
+        elif k == "mprobs":
+            lf.set_motif_probs(dict(op[1]))
+        elif k == "optimise":
+            lf.optimise(max_evaluations=op[1], limit_action="ignore", show_progress=False, local=True)
+        elif k == "name":
+            lf.set_name(op[1])
+        elif k == "time_het":
+            lf.set_time_heterogeneity(edge_sets=[dict(edges=list(e)) for e in op[1]], is_independent=op[2])
+        else:
+            raise ValueError(op)
+    return lf
+
+
+def rule_norm(r):
+    r = {k: plain(v) for k, v in r.items()}
+    for k in ("edges", "bins", "loci"):
+        if isinstance(r.get(k), list):
+            r[k] = sorted(r[k])
+    return r
+
+
+def lf_view(lf):
+    def alignment():
+        a = lf.get_param_value("alignment") if len(lf.locus_names) == 1 else None
+        if a is not None:
+            return dict(a.to_dict())
+        return {loc: dict(lf.get_param_value("alignment", locus=loc).to_dict()) for loc in lf.locus_names}
+
+    def stats():
+        return [[t.title, list(t.header), t.to_list()] for t in lf.get_statistics(with_motif_probs=True, with_titles=True)]
+
+    def mprobs():
+        m = lf.get_motif_probs()
+        return {k: v.to_dict() for k, v in m.items()} if isinstance(m, dict) else m.to_dict()
+    return {
+        "type": type(lf).__name__,
+        "lnL": obs(lambda: float(lf.get_log_likelihood())),
+        "nfp": obs(lambda: int(lf.get_num_free_params())),
+        "name": obs(lambda: lf.name),
+        "model": obs(lambda: [type(lf.model).__name__, lf.model.name]),
+        "param_names": obs(lambda: list(lf.get_param_names())),
+        "bins_loci": obs(lambda: [list(lf.bin_names), list(lf.locus_names)]),
+        "statistics": obs(stats),
+        "rules": obs(lambda: sorted((rule_norm(r) for r in lf.get_param_rules()), key=lambda d: json.dumps(d, sort_keys=True, default=str))),
+        "motif_probs": obs(mprobs),
+        "alignment": obs(alignment),
+        "topology": obs(lambda: lf.tree.get_newick(with_node_names=True)),
+        "annotated_tree": obs(lambda: lf.get_annotated_tree().get_newick(with_distances=True)) if len(lf.locus_names) == 1 else None,
+    }
+
+
+def lf_histories(bid, thorough):
+    spec, kw, newick, akind = LF_BASES[bid]
+    name = spec[1]
+    ops = [["name", "my lf"], ["rule", {"par_name": "length", "edge": "a", "init": 0.7}],
+           ["rule", {"par_name": "length", "edge": "b", "is_constant": True, "value": 0.25}],
+           ["rule", {"par_name": "length", "is_independent": False}], ["optimise", 12]]
+    if name in ("BH",):
+        ops = [["name", "my lf"], ["optimise", 12]]
+    mp4 = {"A": 0.1, "C": 0.2, "G": 0.3, "T": 0.4}
+    if akind != "protein" and bid not in ("dinuc", "MG94HKY", "BH"):
+        ops.append(["mprobs", mp4])
+    par = {"HKY85": "kappa", "HKY85gamma": "kappa", "HKY85loci": "kappa", "GTR": "A/G", "dinuc": "kappa", "custom": "beta",
+           "MG94HKY": "omega", "GN": "A>C"}.get(bid)
+    if par:
+        ops += [["rule", {"par_name": par, "init": 3.5}], ["rule", {"par_name": par, "is_constant": True, "value": 2.0}],
+                ["rule", {"par_name": par, "lower": 0.5, "upper": 7.0, "init": 2.5}],
+                ["rule", {"par_name": par, "is_independent": True}]]
+        if newick == LF_TREE:
+            ops += [["rule", {"par_name": par, "edges": ["a", "b"], "init": 4.0}],
+                    ["rule", {"par_name": par, "tip_names": ["a", "b"], "clade": True, "stem": True, "init": 0.5}],
+                    ["rule", {"par_name": par, "tip_names": ["a", "b"], "outgroup_name": "d", "clade": True, "stem": False,
+                              "is_independent": True}]]
+            if bid in ("HKY85", "GTR"):
+                ops += [["time_het", [["a", "b"], ["c"]], True], ["time_het", [["a", "ab"]], False]]
+    if bid == "HKY85gamma":
+        ops += [["rule", {"par_name": "rate_shape", "init": 2.0}], ["rule", {"par_name": "bprobs", "init": [0.3, 0.7]}]]
+    if bid == "HKY85loci":
+        ops += [["rule", {"par_name": "kappa", "is_independent": True, "loci": ["l1", "l2"]}] if False else
+                ["rule", {"par_name": "kappa", "locus": "l1", "init": 5.0}]]
+    chains = [[]] + [[o] for o in ops]
+    pairs = [[o1, o2] for o1 in ops for o2 in ops if o1 != o2]
+    if bid in ("HKY85", "GTR", "HKY85gamma"):
+        chains += pairs if thorough else pairs[::6]
+    elif thorough and bid != "MG94HKY":
+        chains += pairs[::3]
+    return chains
+
+
+def gen_lf(tier, seed):
+    thorough = tier == "thorough"
+    for bid in LF_BASES:
+        if bid == "MG94HKY" and not thorough:
+            chains = [[], [["rule", {"par_name": "omega", "is_constant": True, "value": 2.0}]]]
+        else:
+            chains = lf_histories(bid, thorough)
+        for ch in chains:
+            for how in CHANNELS:
+                yield [bid, ch, how]
+
+
+def contract_lf(case):
+    bid, ops, how = case
+    kinds = sorted({("rule:" + ",".join(sorted(k for k in op[1] if k not in ("par_name", "init", "value", "lower", "upper")))
+                     if op[0] == "rule" else op[0]) for op in ops})
+    fam = {"HKY85loci": "multi-locus", "HKY85gamma": "gamma", "BH": "discrete", "custom": "custom-model", "JTT92": "protein",
+           "dinuc": "dinucleotide", "MG94HKY": "codon"}.get(bid, "nucleotide")
+    del kinds  # the history is in the message; keys name the family, the channel and the differing components
+    return check_rt(f"lf/{fam}", how, lambda: lf_build(bid, ops), lf_view, case)
+
+
+# ------------------------------------------------------------------------------------------------ app results
+def nc_view(n):
+    return {"type": type(n).__name__, "bool": bool(n), "fields": obs(lambda: [n.type, n.origin, n.message, n.source]),
+            "text": obs(lambda: str(n))}
+
+
+def value_view(v):
+    from cogent3.app.result import generic_result
+    if isinstance(v, generic_result):
+        return ["result", result_view(v)]
+    if hasattr(v, "get_log_likelihood"):
+        return ["lf", {k: x for k, x in lf_view(v).items() if k in ("lnL", "nfp", "name", "param_names", "statistics", "alignment")}]
+    if hasattr(v, "to_dict") and hasattr(v, "names") and hasattr(v, "moltype"):
+        return ["seqs", type(v).__name__, plain(dict(v.to_dict())), info_of(v)]
+    if hasattr(v, "header") and hasattr(v, "to_list"):
+        return ["table", table_view(v)]
+    if hasattr(v, "template") and hasattr(v, "array"):
+        return ["dictarray", type(v).__name__, da_view(v)]
+    if hasattr(v, "get_newick"):
+        return ["tree", tree_view(v)]
+    return ["plain", plain(v)]
+
+
+def result_view(r):
+    def items():
+        r.deserialised_values()
+        return [[plain(k), value_view(r[k])] for k in r]
+    v = {"type": type(r).__name__, "source": obs(lambda: r.source), "items": obs(items)}
+    tn = type(r).__name__
+    if tn == "model_result":
+        v.update({
+            "name": obs(lambda: r.name), "lnL": obs(lambda: float(r.lnL)), "nfp": obs(lambda: int(r.nfp)),
+            "DLC_uniqueQ": obs(lambda: [r.DLC, r.unique_Q]), "counters": obs(lambda: [r.num_evaluations, r.evaluation_limit]),
+            "elapsed": obs(lambda: r.elapsed_time), "lf_names": obs(lambda: [x.name for x in (r.lf.values() if isinstance(r.lf, dict) else [r.lf])]),
+            "tree": obs(lambda: r.tree.get_newick(with_distances=True) if not isinstance(r.tree, dict) else {str(k): t.get_newick(with_distances=True) for k, t in r.tree.items()}),
+            "alignment": obs(lambda: dict(r.alignment.to_dict()) if not isinstance(r.alignment, dict) else {str(k): dict(a.to_dict()) for k, a in r.alignment.items()}),
+        })
+    if tn == "hypothesis_result":
+        v.update({"name": obs(lambda: r.name), "LR_df_p": obs(lambda: [float(r.LR), int(r.df), float(r.pvalue)]),
+                  "null_alt": obs(lambda: [r.null.name, [a.name for a in r.alt]]),
+                  "best": obs(lambda: r.get_best_model().name), "selected": obs(lambda: [m.name for m in r.select_models()])})
+    if tn == "model_collection_result":
+        v.update({"name": obs(lambda: r.name), "best": obs(lambda: r.get_best_model().name)})
+    if tn == "bootstrap_result":
+        v.update({"observed_LR": obs(lambda: float(r.observed.LR)), "null_dist": obs(lambda: [float(x) for x in r.null_dist])})
+    return v
+
+
+def result_build(spec):
+    from cogent3 import get_app, make_aligned_seqs, make_table, make_tree
+    from cogent3.app import result as res
+    from cogent3.app.composable import NotCompleted
+    kind = spec[0]
+    aln = make_aligned_seqs(DNA_ALN, moltype="dna", info={"source": "x.fa"})
+    tree = make_tree(LF_TREE)
+    opt = dict(max_evaluations=15, limit_action="ignore")
+    if kind == "nc":
+        src = {"str": "x.fa", "none": None, "aln": aln}[spec[4]]
+        origin = spec[2] if spec[2] != "<app>" else get_app("omit_degenerates")
+        return NotCompleted(spec[1], origin, spec[3], source=src)
+    if kind == "generic":
+        g = res.generic_result(source="x.fa")
+        for item in spec[1]:
+            if item == "scalars":
+                g["int"], g["float"], g["str"], g["none"], g["list"] = 1, 0.5, "text", None, [1, [2, 3]]
+            elif item == "dict":
+                g["d"] = {"x": [1, 2], "y": {"z": 0.25}}
+            elif item == "aln":
+                g["aln"] = aln[2:9]
+            elif item == "tuplekey":
+                g[("t", 1)] = "tuple key"
+            elif item == "tree":
+                g["tree"] = tree
+            elif item == "table":
+                g["tab"] = make_root_table("mixed")
+            elif item == "nested":
+                inner = res.generic_result(source="inner.fa")
+                inner["k"] = [1, 2]
+                g["inner"] = inner
+            elif item == "seq":
+                g["seq"] = aln.get_seq("a")[1:7]
+            elif item == "nc":
+                g["nc"] = NotCompleted("FAIL", "x", "msg", source="x.fa")
+        return g
+    if kind == "tabular":
+        t = res.tabular_result(source="x.fa")
+        for item in spec[1]:
+            t[item] = make_root_table("mixed") if item == "table" else make_root_da("2d") if item == "da" else make_root_dm("sym4")
+        return t
+    mk = lambda name, **kw: get_app("model", name, tree=tree, show_progress=False, opt_args=opt, **kw)  # noqa: E731
+    if kind == "model":
+        return mk(spec[1], **dict(spec[2]))(aln if not dict(spec[2]).get("split_codons") else aln)
+    if kind == "hypothesis":
+        return get_app("hypothesis", mk(spec[1]), *[mk(n) for n in spec[2]])(aln)
+    if kind == "collection":
+        r = res.model_collection_result(name="coll", source="x.fa")
+        for n in spec[1]:
+            r[n] = mk(n)(aln)
+        return r
+    if kind == "bootstrap":
+        return get_app("bootstrap", get_app("hypothesis", mk("F81"), mk("HKY85")), num_reps=2)(aln)
+    raise ValueError(spec)
+
+
+def gen_result(tier, seed):
+    thorough = tier == "thorough"
+    specs = []
+    for typ in ("ERROR", "FAIL"):
+        for origin in ("myapp", "<app>"):
+            for msg in ("simple", "multi\nline 'quoted' \"msg\" é"):
+                for src in ("str", "none", "aln"):
+                    specs.append(["nc", typ, origin, msg, src])
+    items = ["scalars", "dict", "aln", "tuplekey", "tree", "table", "nested", "seq", "nc"]
+    specs += [["generic", []]] + [["generic", [i]] for i in items] + [["generic", items]]
+    specs += [["tabular", []], ["tabular", ["table"]], ["tabular", ["da"]], ["tabular", ["dm"]], ["tabular", ["table", "da", "dm"]]]
+    specs += [["model", "HKY85", {}], ["model", "GN", {}], ["model", "HKY85", {"split_codons": True}],
+              ["model", "F81", {"name": "renamed-model"}], ["model", "BH", {}],
+              ["model", "HKY85", {"param_rules": [{"par_name": "kappa", "is_constant": True, "value": 2.0}]}],
+              ["model", "HKY85", {"time_het": "max"}], ["model", "HKY85", {"lf_args": {"bins": 2}, "sm_args": {"ordered_param": "rate", "distribution": "gamma"}}]]
+    specs += [["hypothesis", "F81", ["HKY85"]], ["hypothesis", "JC69", ["HKY85", "GTR"]], ["collection", ["F81", "HKY85"]]]
+    if thorough:
+        specs += [["bootstrap"], ["model", "GTR", {"split_codons": True}], ["hypothesis", "HKY85", ["GN"]],
+                  ["collection", ["JC69", "F81", "HKY85", "GTR"]]]
+    for spec in specs:
+        for how in CHANNELS:
+            yield [spec, how]
+
+
+def contract_result(case):
+    spec, how = case
+    kind = spec[0]
+    viewfn = nc_view if kind == "nc" else result_view
+    tag = {"nc": "result/NotCompleted", "generic": "result/generic_result", "tabular": "result/tabular_result",
+           "model": "result/model_result", "hypothesis": "result/hypothesis_result",
+           "collection": "result/model_collection_result", "bootstrap": "result/bootstrap_result"}[kind]
+    flags = ""
+    if kind in ("generic", "tabular"):
+        flags = "+".join(spec[1]) if len(spec[1]) <= 1 else "several"
+    elif kind == "model":
+        flags = ",".join(sorted(dict(spec[2])))
+    elif kind == "nc":
+        flags = "source:" + spec[4]
+
+    def build():
+        r = result_build(spec)
+        if kind != "nc" and not r:
+            raise ValueError(f"the app did not complete: {r}")
+        return r
+    return check_rt(tag, how, build, viewfn, case, flags=flags)
 
 
 BOUNDED = {
@@ -1691,7 +1990,7 @@ BOUNDED = {
         "gen": gen_model, "contract": contract_model,
         "functions": ["substitution_model._SubstitutionModel.to_rich_dict / to_json / __getnewargs_ex__",
                       "deserialise.deserialise_substitution_model"],
-        "bound": "every nucleotide (10) and protein (5) model of available_models(), 4 (thorough 10) codon models, x option "
+        "bound": "every nucleotide (10) and protein (5) model of available_models(), 2 (thorough 10) codon models, x option "
                  "variants for HKY85 / GTR / GN (thorough + F81, TN93): optimise_motif_probs, motif_probs, gamma rate "
                  "heterogeneity, recode_gaps, name, equal_motif_probs; dinucleotide / trinucleotide motif_length with monomer / "
                  "conditional / tuple mprob models, partitioned gamma parameter, genetic code 2; 6 user-defined models (dict "
@@ -1699,5 +1998,31 @@ BOUNDED = {
                  "view includes lnL, nfp, parameter names, motif probs and the rate matrix of a likelihood function built from "
                  "the model on a fixed 3-taxon alignment",
         "rule": "a case = (model spec, channel); always non-trivial; distinct by hash",
+    },
+    "lf": {
+        "gen": gen_lf, "contract": contract_lf,
+        "functions": ["AlignmentLikelihoodFunction.to_rich_dict / to_json / get_param_rules", "deserialise.deserialise_likelihood_function",
+                      "ParameterController.__reduce__ (pickle)"],
+        "bound": "11 likelihood functions on fixed 3-4 taxon data (HKY85, GTR, F81 with free motif probs, GN, discrete BH, "
+                 "HKY85+gamma 2 bins, HKY85 on 2 loci, JTT92 protein, dinucleotide HKY85, user-defined predicates, codon "
+                 "MG94HKY) x histories depth <= 2 (all pairs for HKY85 / GTR / gamma in thorough, every 6th in quick; every 3rd "
+                 "pair for the others in thorough) over set_name, set_param_rule (init, constant, bounds, independent, edge "
+                 "list, clade+stem, clade with outgroup, global length, per-locus), set_motif_probs, set_time_heterogeneity, "
+                 "optimise(12 evaluations, local) x channels json, rich, pickle; view = lnL, nfp, name, parameter names, "
+                 "statistics tables, normalised parameter rules, motif probs, alignment, topology, annotated tree",
+        "rule": "a case = (base lf, history, channel); always non-trivial; distinct by hash",
+    },
+    "result": {
+        "gen": gen_result, "contract": contract_result,
+        "functions": ["NotCompleted.to_rich_dict / to_json / __getnewargs_ex__", "generic_result.to_rich_dict / to_json / deserialised_values",
+                      "model_result / hypothesis_result / model_collection_result / bootstrap_result / tabular_result .to_rich_dict",
+                      "deserialise.deserialise_result", "deserialise.deserialise_not_completed"],
+        "bound": "NotCompleted: 2 types x {str origin, app instance} x {plain, multi-line quoted unicode message} x source {str, "
+                 "None, alignment}; generic_result with each of 9 content kinds (scalars, nested dict, sliced alignment, tuple "
+                 "key, tree, table, nested result, sliced sequence, NotCompleted) and all together; tabular_result with table / "
+                 "DictArray / DistanceMatrix; model_result from the model app (HKY85, GN, BH, split codons, renamed, constant "
+                 "parameter rule, time_het=max, gamma); hypothesis_result (1 and 2 alternates); model_collection_result; "
+                 "thorough: bootstrap_result (2 replicates) and 3 more; x channels json, rich, pickle",
+        "rule": "a case = (result spec, channel); always non-trivial; distinct by hash",
     },
 }
